@@ -26,7 +26,7 @@ RULE = ("cases: (mode, load variant, n_models, package permutation); executions:
         "non-trivial = distinct (case, source) whose result has >= 2 rows")
 ASSUMPTIONS = ["finite value alphabets", "ties may be ordered either way"]
 REQUIRED_CLASSES = ['tied-chi2-duplicates', 'chi2>=1e30', 'tied-at-1e30', 'chi2==2e30', 'resolved-removal-moves-best-distance', 'n_models==1', 'n_models==8', 'permuted-package',
-                    'mode-2d', 'mode-3d', 'float32-path']
+                    'mode-2d', 'mode-3d', 'float32-path', 'dead-model']
 TIMEOUT = {'quick': 300, 'thorough': 1200}
 VARIANTS = [('v1', False), ('v2', True), ('v2', False)]
 BANDS = ['B1', 'B2', 'B3', 'B5']
@@ -130,6 +130,34 @@ def run_case(ctx, case, rec, d):
         logd = np.log10(grid)
         base = 10 ** (logm3[perm.index(0), len(grid) // 2, :] + 2.0 * k)
     cfg = (mode, case['variant'], n, tuple(perm))
+    # ---- a model that emits nothing in one band (zero flux): it is outside the strict quantifier (positive fluxes) but must at least
+    # end up behind every live model (chi^2 >= 1e30 or undefined), and must not disturb the other rows (differential oracle: the same package without it)
+    if n in (3, 5) and mode == '2d':
+        dead_names = names + ['p_dead']
+        fdead = np.vstack([fphys[perm], fphys[perm][0:1] * 1.0])
+        fdead[-1, 1] = 0.0
+        md_d = fc.build_package(d, 'pkg_dead', {'fmt': fmt, 'names': dead_names, 'bands': BANDS, 'flux': fdead})
+        ft_d = fc.make_fitter(md_d, BANDS, 'power', (avlo, avhi), memmap=memmap)
+        for si, (fv, lim) in enumerate(SOURCES[:1] + SOURCES[4:6]):
+            fl = base * np.array([1.0, 1.15, 0.9, 1.05])
+            er = fl * 0.1
+            a = fitters[0][0].fit(fc.make_source(fv, fl, er))
+            b = ft_d.fit(fc.make_source(fv, fl, er))
+            rec.trans(2)
+            rec.ev(n + 1)
+            rec.cls('dead-model')
+            bn = [str(x).strip() for x in np.asarray(b.model_name)]
+            an = [str(x).strip() for x in np.asarray(a.model_name)]
+            bch = fc._asf(b.chi2)
+            prob = None
+            if sorted(bn) != sorted(dead_names):
+                prob = 'names %r' % bn
+            elif bn[-1] != 'p_dead' or not (bch[-1] >= 1e30 or bch[-1] != bch[-1]):
+                prob = 'the model with zero flux in a fitted band is at rank %d with chi2 %r (expected last, with chi2 >= 1e30 or undefined)' % (bn.index('p_dead') + 1, bch[bn.index('p_dead')])
+            elif bn[:-1] != an or not (np.allclose(bch[:-1], fc._asf(a.chi2), rtol=1e-12) and np.allclose(fc._asf(b.av)[:-1], fc._asf(a.av), rtol=1e-12, atol=1e-12)):
+                prob = 'live rows differ from the package without the dead model'
+            if prob:
+                rec.violation('rank|2d|dead-model', {'source': si}, {'problem': prob, 'flags': list(fv), 'ranking': bn, 'chi2': bch})
     for fitter, rr in fitters:
         f32 = fc.observed_f32(fitter)
         if f32:
